@@ -121,6 +121,9 @@ func c17Boot(t *testing.T, app *simapp.ElysApp, seed int64, setup func(w *World,
 		app.TokenomicsKeeper.SetTimeBasedInflation(ctx, toktypes.TimeBasedInflation{StartBlockHeight: 3000, EndBlockHeight: 4000, Description: "c17o", Inflation: infl, Authority: rec})
 		app.AssetprofileKeeper.SetEntry(ctx, aptypes.Entry{BaseDenom: "uc17o", Denom: "uc17o", Decimals: 6, DisplayName: "C17O", Authority: rec})
 		app.OracleKeeper.SetAssetInfo(ctx, oracletypes.AssetInfo{Denom: "uc17", Display: "C17", Decimal: 6, BandTicker: "C17", ElysTicker: "C17"})
+		// a listed IBC voucher: on a live chain every voucher denom has upper-case hex digits (the repository's tests list lower-case denoms only)
+		app.OracleKeeper.SetAssetInfo(ctx, oracletypes.AssetInfo{Denom: c17Voucher, Display: "C17V", Decimal: 6, BandTicker: "C17V", ElysTicker: "C17V"})
+		app.AssetprofileKeeper.SetEntry(ctx, aptypes.Entry{BaseDenom: "uc17v", Denom: c17Voucher, Decimals: 6, DisplayName: "C17V", Authority: w.Gov})
 		app.LeveragelpKeeper.WhitelistAddress(ctx, w.Accts[4].Addr)
 		app.PerpetualKeeper.WhitelistAddress(ctx, w.Accts[4].Addr)
 		// a fifth pool: an oracle pool that leveragelp does not know yet (for MsgAddPool)
@@ -588,6 +591,9 @@ func c17PerpPosition(w *World, std *Std, owner *Acct) (uint64, string) {
 	return 0, "perpetual position missing after open"
 }
 
+// c17Voucher: the denom of an IBC voucher as a live chain has them (upper-case hex)
+const c17Voucher = "ibc/27394FB092D2ECCD56123C74F36E4C1F926001CEADA9CA97EA622B25F41E5EB2"
+
 var c17OwnedTable = []c17Owned{
 	{module: "tradeshield", msg: "MsgUpdateSpotOrder", field: "OwnerAddress", create: c17SpotOrder,
 		build: func(w *World, std *Std, who string, id uint64) sdk.Msg {
@@ -856,6 +862,8 @@ func runC17(t *testing.T, seed int64, n int, out *Out) {
 		&oracletypes.MsgCreateAssetInfo{Creator: fresh.Addr.String(), Denom: "uusdc", Display: "USDX", BandTicker: "USDX", ElysTicker: "USDX", Decimal: 18},
 		&oracletypes.MsgCreateAssetInfo{Creator: fresh.Addr.String(), Denom: "uatom", Display: "ATOM", BandTicker: "ATOM", ElysTicker: "ATOM", Decimal: 6},
 		&oracletypes.MsgCreateAssetInfo{Creator: fresh.Addr.String(), Denom: "uc17", Display: "C17z", BandTicker: "C17z", ElysTicker: "C17z", Decimal: 9},
+		&oracletypes.MsgCreateAssetInfo{Creator: fresh.Addr.String(), Denom: c17Voucher, Display: "USDC", BandTicker: "USDC", ElysTicker: "USDC", Decimal: 18},
+		&aptypes.MsgAddEntry{Creator: fresh.Addr.String(), BaseDenom: "uc17v", Denom: c17Voucher, Decimals: 18, DisplayName: "USDC", CommitEnabled: true, WithdrawEnabled: true},
 	} {
 		r := p.probe(TxReq{Signer: fresh, Msgs: []sdk.Msg{nm}})
 		mod, name := c17SplitURL(sdk.MsgTypeURL(nm))
